@@ -604,8 +604,19 @@ package erpc
 // do not touch the routing tables (assumption; reflection is outside contracts)
 //@ iface dynamic:func(string, interface{}, *erpc.PluginContainer) ([]*erpc.Handler, error)
 //@   flags libframe
-//@ trusted (*pluginSingleContainer).postReg
+// registration hooks: the stage is verified (each implementing plugin once, in
+// container order; the first error is fatal), the hook itself is the assumption
+//@ iface erpc.PostRegPlugin.PostReg
+//@   params self h
 //@   flags libframe
+//@   modifies nothing
+//@   ghostset ghost.trace = tcat(old(ghost.trace), ev(self, type(PostRegPlugin)))
+//@ func (*pluginSingleContainer).postReg
+//@   property C09
+//@   flags libframe
+//@   modifies ghost.trace
+//@   loop 0: invariant[in-order-once] $idx >= -1 && $idx < len(p.plugins) && ghost.trace == trS(rowof(p.plugins), off(p.plugins), $idx + 1, type(PostRegPlugin), old(ghost.trace))
+//@   ensures[all-in-order] ghost.trace == trS(rowof(p.plugins), off(p.plugins), len(p.plugins), type(PostRegPlugin), old(ghost.trace))
 //@ trusted warnInvalidHandlerHooks
 //@   flags libframe
 
